@@ -261,11 +261,11 @@ def refs():
 
 
 def c01_quick():
-    return (arith(consumers=('local', 'cmp', 'widen')) + compare() + casts() + unary() + control() + composites() + refs())
+    return (arith(consumers=('local', 'cmp', 'widen')) + compare() + casts() + unary() + control() + composites() + refs() + castuse('quick'))
 
 
 def c01_thorough():
-    return (arith() + compare() + casts() + unary() + control() + composites() + refs())
+    return (arith() + compare() + casts() + unary() + control() + composites() + refs() + castuse('thorough'))
 
 
 # ------------------------------------------------------------------------------------------------ C04 fixed arrays
@@ -646,11 +646,9 @@ def c05(tier='quick', seed=0):
 
 
 # ------------------------------------------------------------------------------------------------ C02 extras
-def c02_extra(tier='quick'):
-    """Templates aimed at places where the two back ends select instructions independently: a narrowing cast whose
-    result is consumed directly (not through a typed local, which re-normalises on the store/load), and division /
-    remainder WITHOUT the usual precondition (only agreement of the two targets is asserted, so the corner cases
-    /0 and MIN/-1 are in)."""
+def castuse(tier='quick'):
+    """A cast whose result is consumed directly (by a compare, a second cast, a call argument, a division) instead of
+    going through a typed local first (a store/load pair re-normalises the value and hides a missing wrap)."""
     out = []
     srcs = [I64, U64, I32, U32] if tier == 'quick' else INTS
     for d in INTS:
@@ -669,17 +667,28 @@ def c02_extra(tier='quick'):
             out.append(Template('castuse/arg/%s/%s' % (s.name, d.name), fn1(body, extra=[h]), family='castuse'))
             body = head + [Let('r', d, Bin('/', e, Lit(2, d))), Return(Cast(Var('r', d), I64))]
             out.append(Template('castuse/div/%s/%s' % (s.name, d.name), fn1(body), family='castuse'))
+    return out
+
+
+def c02_extra(tier='quick'):
+    """Division / remainder WITHOUT the usual precondition: only agreement of the two targets is asserted, so the
+    corner cases /0 and MIN/-1 are in."""
+    out = []
     for ty in INTS:
         a, b = Var('a', ty), Var('b', ty)
         head = [Let('a', ty, Cast(X, ty)), Let('b', ty, Cast(Y, ty))]
         for op in '/%':
             body = head + [Let('r', ty, Bin(op, a, b)), Return(Cast(Var('r', ty), I64))]
-            out.append(Template('rawdiv/%s/%s' % (OPNAME[op], ty.name), fn2(body), family='rawdiv'))
+            regions = {}
+            if op == '%' and ty.signed and ty.bits >= 32:
+                regions['min_rem_minus1'] = (lambda ty: lambda args: z3.And(narrow(args[0], ty) == z3.BitVecVal(1 << (ty.bits - 1), ty.bits),
+                                                                          narrow(args[1], ty) == z3.BitVecVal(-1, ty.bits)))(ty)
+            out.append(Template('rawdiv/%s/%s' % (OPNAME[op], ty.name), fn2(body), family='rawdiv', regions=regions))
     return out
 
 
 def c02(tier='quick'):
     if tier == 'quick':
         base = arith(consumers=('local', 'cmp')) + compare() + casts() + unary() + control() + composites() + refs()
-        return base + c02_extra(tier) + c08(tier) + c18(tier)
+        return base + castuse(tier) + c02_extra(tier) + c08(tier) + c18(tier)
     return c01_thorough() + c02_extra(tier) + c04(tier) + c08(tier) + c18(tier) + c05(tier, 0)
